@@ -1070,6 +1070,58 @@ pub fn run(args: &Args) {
         }
     }
 
+    // ---------------- literals nested in literals, and ill-typed arguments of any-typed parameters: whatever the checker accepts
+    // must evaluate without a type error (no expected value here: rejection at load is the sound answer for most of them)
+    {
+        let env = &envs[0];
+        let ctx: ScriptContextRef = Arc::new(create_context(env.props()));
+        let leaves: [(&str, &str); 3] = [("1", "+ 1 == 2"), ("\"a\"", "== \"a\""), ("true", "&& true")];
+        let mut texts: Vec<String> = vec![];
+        for (a, use_a) in leaves.iter() {
+            for (b, _) in leaves.iter() {
+                // the use fits the FIRST member's type; index 1 selects the second
+                texts.push(format!("([[{}],[{}]][1][0]) {}", a, b, use_a));
+                texts.push(format!("([({},{}),({},{})][1].0) {}", a, a, b, b, use_a));
+                texts.push(format!("([[[{}]],[[{}]]][1][0][0]) {}", a, b, use_a));
+                texts.push(format!("([({},),({},{})][1].1) {}", a, b, b, use_a));
+                texts.push(format!("(if true then [[{}]] else [[{}]])[0][0] {}", b, a, use_a));
+            }
+        }
+        for t in ["[[1],[1 + \"a\"]][1][0] == 1", "[(1,2),(3,)][1].1 == 1", "[[1,2],[true]][1][0] && true", "[[\"a\"],[2]][1][0] =~ \"a\"", "[(1,\"a\"),(\"a\",1)][1].0 + 1 == 2",
+                  "to_string(1 + \"a\") == \"x\"", "to_string(!5) == \"x\"", "to_string(request.target.port + request.target.host) =~ \"^4\"", "`${to_string(1 && 2)}` == \"x\"",
+                  "to_string([1, \"a\"]) == \"x\"", "to_string(nosuch) == \"x\"", "to_string(1 / \"a\") == \"x\""] {
+            texts.push(t.to_string());
+        }
+        for text in texts {
+            out.case();
+            out.nontrivial(&text);
+            let parsed = match parse(&text) {
+                Ok(p) => p,
+                Err(_) => {
+                    out.count("nested_literal_probes_syntax_rejected", 1);
+                    continue;
+                }
+            };
+            match guard(|| parsed.type_of(ctx.clone())) {
+                Err(p) => out.violation(format!("load: type_of {}", p.sig()), serde_json::json!({"expr": text})),
+                Ok(Err(_)) => out.count("nested_literal_probes_rejected_at_load", 1),
+                Ok(Ok(t)) => match guard(|| parsed.value_of(ctx.clone())) {
+                    Err(p) => out.violation(format!("eval: {}", p.sig()), serde_json::json!({"expr": text})),
+                    Ok(Err(e)) => {
+                        let (cls, _) = classify(&e.to_string());
+                        if cls == ErrClass::TypeError {
+                            out.violation(
+                                format!("eval: accepted expression fails with a type error: {} (literal nested in a literal / argument of an any-typed parameter)", type_error_class(&e.to_string())),
+                                serde_json::json!({"expr": text, "accepted_as": t.to_string(), "error": e.to_string()}),
+                            );
+                        }
+                    }
+                    Ok(Ok(_)) => out.count("nested_literal_probes_evaluated", 1),
+                },
+            }
+        }
+    }
+
     // ---------------- request.* declared type vs runtime shape, every field, every environment
     for env in &envs {
         let ctx: ScriptContextRef = Arc::new(create_context(env.props()));
